@@ -175,6 +175,39 @@ func replayCmd(args []string) *Result {
 		if o.Res == "panic" {
 			res.mismatch(kind+":panic", o.Msg, json.RawMessage(b))
 		}
+	case "sweep":
+		// accepted-project sweeps: the check of the property that recorded the case, with the same signatures
+		src := projSrc{name: str("project"), text: str("text"), path: str("path")}
+		if src.text != "" {
+			src.path = ""
+		}
+		say("project %s", src.name)
+		prop := os.Getenv("VH_PROP")
+		if prop == "C06" {
+			if sig, what := checkC06(src, 6); sig != "" {
+				res.mismatch(sig, what, json.RawMessage(b))
+			}
+			break
+		}
+		j, ok, msg := src.build()
+		say("build: ok=%v %s", ok, firstLine(msg))
+		if !ok {
+			if strings.HasPrefix(msg, "panic") {
+				res.mismatch("sweep:panic", msg, json.RawMessage(b))
+			}
+			break
+		}
+		var sig, what string
+		switch prop {
+		case "C17":
+			sig, what = checkC17(&j)
+		default:
+			probeSrc = &src
+			sig, what = checkC04(&j)
+		}
+		if sig != "" {
+			res.mismatch(sig, what, json.RawMessage(b))
+		}
 	default:
 		// single-file documents: the rendered text and (when present) the expectation of the specification
 		text := str("text")
